@@ -97,3 +97,60 @@ def nullability_through_annotated(repo: Repo, rep: Report, rule: str) -> None:
         else:
             rep.undecide(rule, inst + "; is_optional mentions is_annotated in a form this rule does not recognise")
     rep.floor(rule, 4)
+
+
+# ------------------------------------------------------------------------------------------------ Instance typestate
+def instance_type_state(repo: Repo, rep: Report, rule: str) -> None:
+    """jsonschema Instance keeps three facts derived from `self.type`: `origin_type`, and the private `__self_builder`
+    (the CodeBuilder of a dataclass type together with its type arguments) which only `update_type` computes.  Every
+    write of `self.type` in a method of Instance other than update_type is followed, on the fall-through path of its
+    block, by a call of `self.update_type(...)`; otherwise the derived facts describe the previous type (for
+    `Annotated[G[int], m]` the builder of the Annotated alias, i.e. none: `fields()` fails its assertion)."""
+    from .srcmodel import M_SCHEMA
+    ci = repo.cls(M_SCHEMA, "Instance")
+    n = 0
+    for fn in ci.node.body:
+        if not isinstance(fn, ast.FunctionDef) or fn.name == "update_type":
+            continue
+
+        def visit(stmts: List[ast.stmt], tail_has_update: bool) -> None:
+            nonlocal n
+            for i, st in enumerate(stmts):
+                rest = stmts[i + 1:]
+                later = tail_has_update or any(isinstance(c, ast.Call) and ast.unparse(c.func) == "self.update_type" for r in rest for c in ast.walk(r))
+                if isinstance(st, (ast.Assign, ast.AugAssign, ast.AnnAssign)):
+                    tgts = st.targets if isinstance(st, ast.Assign) else [st.target]
+                    if any(ast.unparse(t) == "self.type" for tg in tgts for t in ast.walk(tg) if isinstance(t, ast.Attribute)):
+                        n += 1
+                        inst = f"Instance.{fn.name}: `{ast.unparse(st)[:70]}`"
+                        if later:
+                            rep.ok(rule, inst + " is followed by update_type", None)
+                        else:
+                            rep.violation(rule, f"{M_SCHEMA}::Instance.{fn.name}", inst + " is not followed by self.update_type(...)",
+                                          "origin_type and the dataclass builder (with its type arguments) are derived from self.type by update_type only; "
+                                          "after this write they still describe the previous type: Annotated[G[int], m] for a generic dataclass G keeps "
+                                          "no builder and Instance.fields() fails with AssertionError inside build_json_schema",
+                                          loc=f"mashumaro/jsonschema/schema.py:{st.lineno}")
+                for name in ("body", "orelse", "finalbody"):
+                    sub = getattr(st, name, None)
+                    if isinstance(sub, list) and sub and isinstance(sub[0], ast.stmt):
+                        visit(sub, later)
+                for h in getattr(st, "handlers", []) or []:
+                    visit(h.body, later)
+
+        visit(fn.body, False)
+    writers = [fn.name for fn in ci.node.body if isinstance(fn, ast.FunctionDef)
+               and any(isinstance(a, ast.Attribute) and a.attr.endswith("__self_builder") and isinstance(a.ctx, ast.Store) for a in ast.walk(fn))]
+    if writers == ["update_type"]:
+        rep.ok(rule, "only Instance.update_type writes __self_builder", None)
+    elif "update_type" not in writers:
+        raise AnalysisError(f"Instance.update_type no longer computes __self_builder (writers: {writers})")
+    else:
+        extra = [w for w in writers if w != "update_type"]
+        if extra == ["derive"]:
+            rep.ok(rule, "Instance.derive hands its own builder down as the owner builder; update_type is the only writer of __self_builder", None)
+        else:
+            rep.undecide(rule, f"__self_builder is also written by {extra}")
+    if n < 1:
+        raise AnalysisError("no write of self.type found in Instance outside update_type")
+    rep.floor(rule, 2)
